@@ -140,9 +140,13 @@ def run(ctx):
                     pt.derived.add(d['id'])
         a0, a1 = arg(c, 0), arg(c, 1)
         okn = pt.is_derived(a0)
-        oka = pt.is_derived(a1) or _is_empty_string_buffer(F, a1) or okn and _arg_from_same_element(F, a1, pt)
+        # the argument must be the element's own text (a pointer into the chain copy) or the empty
+        # string: a copy into a smaller fixed buffer would silently cut long arguments
+        pt_direct = PtrTaint(F, lambda n: any(n is t for t in toks), holders)
+        oka = all(pt_direct.is_derived(x) or _is_empty_string_buffer(F, x) for x in _defs_or_self(F, a1))
         chk.ob('F2', 'name-and-arg-from-the-element', okn and oka, c.where(), F.name,
-               'filter call %s does not take its name/argument from the chain element just parsed' % render(c),
+               'filter call %s does not take its name from the chain element just parsed, or its argument is not the '
+               'element\'s own text (a copy into a fixed buffer truncates long arguments such as uid lists)' % render(c),
                how='both arguments derive from the tokeniser result')
     # ---- F3 ----------------------------------------------------------------------------
     filters = common.filter_functions(prog)
@@ -197,11 +201,34 @@ def run(ctx):
            'the action can end the process instead of returning to the interposer', nontrivial=False)
 
 
+def _defs_or_self(F, a):
+    d = decl_of(a)
+    if d is None:
+        return [a]
+    ds = def_exprs(F, d['id'])
+    return ds if ds else [a]
+
+
+def _first_byte_zeroed(F, decl_id):
+    for n in F.body.walk():
+        if n.k == 'BinaryOperator' and n['op'] == '=':
+            l = strip(n.ch[0])
+            if l.k == 'ArraySubscriptExpr' and (decl_of(l.ch[0]) or {}).get('id') == decl_id \
+                    and strip(l.ch[1]).get('v') == 0 and strip(n.ch[1]).get('v') == 0:
+                return True
+    return False
+
+
 def _is_empty_string_buffer(F, a):
     d = decl_of(a)
     if d is None:
         s = strip(a)
         return s is not None and s.k == 'StringLiteral' and s.get('s') == ''
+    if (strip(a).get('ct') or '').rstrip().endswith(']'):
+        # a local array whose only content is the terminator stored at [0]
+        others = [n for n in F.calls() if n.get('callee') in ('strncpy', 'strcpy', 'memcpy', 'snprintf', 'strcat')
+                  and (decl_of(arg(n, 0)) or {}).get('id') == d['id']]
+        return _first_byte_zeroed(F, d['id']) and not others
     for x in def_exprs(F, d['id']):
         s = strip(x)
         if s.k == 'StringLiteral' and s.get('s') == '':
